@@ -33,7 +33,7 @@ def run(ctx):
     behs = ctx.tlc_gen("Blockstore", "GenBlockstore.tla",
                        "GenBlockstore.cfg" if ctx.quick else "GenBlockstoreD3.cfg", timeout=900)
     sims = ctx.tlc_gen("Blockstore", "GenBlockstore.tla", "GenBlockstoreSim.cfg",
-                       simulate=10 if ctx.quick else 100, depth=31 * 30 + 1, timeout=900)
+                       simulate=4 if ctx.quick else 100, depth=31 * 30 + 1, timeout=900)
     # universe family: every single call (quick) / every pair of calls (thorough) over ALL CID variants
     # of 8 blocks and 8 identity CIDs whose lengths straddle the framing boundaries (0, 1, 127|128, 255|256,
     # 16383|16384) and two digest lengths
